@@ -26,6 +26,15 @@ func All() []*core.Prop {
 	return out
 }
 
+// operandLayouts is the set of operand layouts a shared runner ranges over: the row-major family normally,
+// the column-major family (mixed with contiguous row-major) when it runs on behalf of C16.
+func operandLayouts(c *core.Ctx) []string {
+	if c.Prop == "C16" {
+		return []string{"C", "F", "Fconv", "FT", "FS", "FSS"}
+	}
+	return []string{"C", "T", "S", "SS", "MS"}
+}
+
 func shapeStr(s []int) string {
 	parts := make([]string, len(s))
 	for i, d := range s {
